@@ -14,7 +14,11 @@ VARIABLES row, out
 vars == <<row, out>>
 
 Tri == {"unset", "same", "diff"}
-SevRows == [tech : {"sev"}, bpolicy : Tri, bmeas : Tri, bsvn : {"unset", "le", "gt"},
+\* base guest policy: "diff" sets a bit the endorsed policy does not have, "stricter" lacks a permission
+\* bit the endorsed policy has (a bitwise subset): both are different values the caller configured
+PolicyVals == Tri \cup {"stricter"}
+Differs(v) == v \in {"diff", "stricter"}
+SevRows == [tech : {"sev"}, bpolicy : PolicyVals, bmeas : Tri, bsvn : {"unset", "le", "gt"},
             bid : BOOLEAN, bauth : BOOLEAN,
             bundle : {"none", "id", "id_author", "three", "wrongtype", "wrongauthor", "garbage"},
             count : {"listed", "unlisted", "zero"}, ow : BOOLEAN, unspec : BOOLEAN]
@@ -27,7 +31,7 @@ Err(why) == [err |-> why]
 Sev(r) ==
   LET conflict ==
         IF r.ow THEN "none"
-        ELSE IF r.bpolicy = "diff" THEN "policy"
+        ELSE IF Differs(r.bpolicy) THEN "policy"
         ELSE IF r.count # "zero" /\ r.bmeas # "unset" /\ (r.count = "unlisted" \/ r.bmeas = "diff") THEN "measurement"
         ELSE IF r.bsvn = "gt" THEN "svn"
         ELSE "none"
@@ -59,7 +63,7 @@ C17_BaseUntouched == [][row' = row]_vars
 \* ("endo" where base = "same" is the same value)
 C17_NoWeakening ==
   out.err = "" /\ row.tech = "sev" /\ ~row.ow =>
-    /\ row.bpolicy = "diff" => out.policy = "base"
+    /\ Differs(row.bpolicy) => out.policy = "base"
     /\ row.bmeas = "diff" => out.meas = "base"
     /\ out.svn = "base"
 C17_NoWeakeningTdx ==
